@@ -281,6 +281,11 @@ class Explorer:
         if status != "proved":
             rec["detail"] = str(extra)[:2000]
             rec["goal"] = str(goal)[:1500]
+            if isinstance(extra, z3.ModelRef):
+                try:
+                    rec["model"] = {d.name(): str(extra[d]) for d in extra.decls() if d.arity() == 0}
+                except Exception:
+                    pass
         if info:
             rec["info"] = info
         self.obligations.append(rec)
@@ -318,6 +323,145 @@ class Explorer:
             self.paths.append((list(self.decisions), out))
             outcomes.append(out)
         return outcomes
+
+
+class Inconclusive(Exception):
+    """a concrete replay cannot decide (value within rounding distance, division by zero, non-ground term)"""
+
+
+def _gval(e):
+    """exact value of a ground arithmetic term: Fraction"""
+    from fractions import Fraction
+    e = z3.simplify(e)
+    if z3.is_int_value(e):
+        return Fraction(e.as_long())
+    if z3.is_rational_value(e):
+        return Fraction(e.numerator_as_long(), e.denominator_as_long())
+    raise Inconclusive("not a ground number: %s" % str(e)[:80])
+
+
+def ground_eval(e, tol=1e-9):
+    """truth value of a ground formula; real equalities hold when both sides agree up to rounding (relative `tol`), an order
+    comparison of values that close is Inconclusive"""
+    from fractions import Fraction
+    if isinstance(e, bool):
+        return e
+    if z3.is_true(e):
+        return True
+    if z3.is_false(e):
+        return False
+    k = e.decl().kind() if z3.is_app(e) else None
+    ch = e.children() if z3.is_app(e) else []
+    if k == z3.Z3_OP_AND:
+        return all([ground_eval(c, tol) for c in ch])
+    if k == z3.Z3_OP_OR:
+        return any([ground_eval(c, tol) for c in ch])
+    if k == z3.Z3_OP_NOT:
+        return not ground_eval(ch[0], tol)
+    if k == z3.Z3_OP_IMPLIES:
+        return (not ground_eval(ch[0], tol)) or ground_eval(ch[1], tol)
+    if k == z3.Z3_OP_ITE and e.sort() == z3.BoolSort():
+        return ground_eval(ch[1] if ground_eval(ch[0], tol) else ch[2], tol)
+    if k in (z3.Z3_OP_EQ, z3.Z3_OP_IFF) and ch[0].sort() == z3.BoolSort():
+        return ground_eval(ch[0], tol) == ground_eval(ch[1], tol)
+    if k in (z3.Z3_OP_EQ, z3.Z3_OP_DISTINCT, z3.Z3_OP_LE, z3.Z3_OP_LT, z3.Z3_OP_GE, z3.Z3_OP_GT) and len(ch) == 2 \
+            and ch[0].sort() in (z3.IntSort(), z3.RealSort()):
+        a, b = _gval(_ground_ite(ch[0], tol)), _gval(_ground_ite(ch[1], tol))
+        exact = ch[0].sort() == z3.IntSort() and ch[1].sort() == z3.IntSort()
+        close = (a == b) if exact else abs(a - b) <= Fraction(tol) * (1 + max(abs(a), abs(b)))
+        if k == z3.Z3_OP_EQ:
+            return close
+        if k == z3.Z3_OP_DISTINCT:
+            return not close
+        if close and a != b:
+            raise Inconclusive("order comparison of values within rounding distance")
+        return {z3.Z3_OP_LE: a <= b, z3.Z3_OP_LT: a < b, z3.Z3_OP_GE: a >= b, z3.Z3_OP_GT: a > b}[k]
+    s_ = z3.simplify(e)
+    if z3.is_true(s_):
+        return True
+    if z3.is_false(s_):
+        return False
+    raise Inconclusive("cannot evaluate %s" % str(e)[:80])
+
+
+def _ground_ite(e, tol):
+    """resolve If(c, a, b) inside arithmetic by evaluating c with the tolerant comparison"""
+    if not z3.is_app(e) or not e.children():
+        return e
+    if e.decl().kind() == z3.Z3_OP_ITE:
+        c, a, b = e.children()
+        return _ground_ite(a if ground_eval(c, tol) else b, tol)
+    if e.decl().kind() in (z3.Z3_OP_DIV, z3.Z3_OP_IDIV, z3.Z3_OP_MOD) and _gval(_ground_ite(e.children()[1], tol)) == 0:
+        raise Inconclusive("division by zero")
+    ch = [_ground_ite(c, tol) for c in e.children()]
+    return e.decl()(*ch)
+
+
+class ConcreteExplorer(Explorer):
+    """Replays ONE counter-model natively: every fresh symbol is the model's value as an ordinary python / numpy number, so the code
+    under contract runs on real numpy arrays; obligations are evaluated, not proved (DESIGN 5.6)."""
+    concrete = True
+
+    def __init__(self, model, unit=""):
+        Explorer.__init__(self, unit=unit)
+        self.model = dict(model)
+        self.results = {}
+        self.inputs = {}
+        self.assumption_broken = None
+
+    def value(self, name, kind, lo=None, hi=None):
+        from fractions import Fraction
+        raw = self.model.get(name)
+        if raw is None:
+            v = Fraction(0)
+            if lo is not None and v < lo:
+                v = Fraction(lo)
+            if hi is not None and v > hi:
+                v = Fraction(hi)
+        else:
+            if raw in ("True", "False"):
+                v = raw == "True"
+            else:
+                try:
+                    v = Fraction(raw.replace(" ", ""))
+                except ValueError:
+                    raise Inconclusive("model value %r of %s is not rational" % (raw, name))
+        out = bool(v) if kind == "b" else int(v) if kind == "i" else float(v)
+        self.inputs[name] = out
+        return out
+
+    def assume(self, e):
+        if isinstance(e, SymBool):
+            e = e.t
+        try:
+            if not ground_eval(e):
+                self.assumption_broken = str(e)[:200]
+        except Inconclusive:
+            pass
+
+    def prove(self, name, goal, kind="post", timeout_ms=None, expect="proved", info=None):
+        if isinstance(goal, SymBool):
+            goal = goal.t
+        try:
+            self.results.setdefault(name, ground_eval(goal))
+        except (Inconclusive, Unsupported) as x:
+            self.results.setdefault(name, None)
+        return True
+
+    def run(self, thunk):
+        global _EXPLORER
+        prev = _EXPLORER
+        _EXPLORER = self
+        self._reset_path([])
+        try:
+            return thunk()
+        finally:
+            _EXPLORER = prev
+
+
+def concrete():
+    e = _EXPLORER
+    return e if getattr(e, "concrete", False) else None
 
 
 # ---------------------------------------------------------------------------
@@ -590,6 +734,8 @@ class SymReal(_SymNum):
 
 def fresh_int(base, lo=None, hi=None):
     e = cur()
+    if getattr(e, "concrete", False):
+        return e.value(e.fresh_name(base), "i", lo, None if hi is None else hi - 1)
     v = z3.Int(e.fresh_name(base))
     if lo is not None:
         e.assume(v >= _t(lo))
@@ -599,10 +745,14 @@ def fresh_int(base, lo=None, hi=None):
 
 
 def fresh_real(base):
+    if getattr(cur(), "concrete", False):
+        return cur().value(cur().fresh_name(base), "f")
     return SymReal(z3.Real(cur().fresh_name(base)))
 
 
 def fresh_bool(base):
+    if getattr(cur(), "concrete", False):
+        return cur().value(cur().fresh_name(base), "b")
     return SymBool(z3.Bool(cur().fresh_name(base)))
 
 
